@@ -16,7 +16,7 @@ CHECKS = {
     "C02": (
         "model-based operation histories + day-by-day P&L attribution recomputed from recorded series of generated backtests",
         "Per-operation conservation (root value moves by exactly minus the costs of the trades executed) on generated histories, and the day-by-day attribution identity recomputed from the "
-        "recorded series for the root and every sub-strategy of generated histories and grammar backtests.",
+        "recorded series for the root and every sub-strategy of generated histories, grammar backtests, fixed-income backtests with carry, and backtests that re-open a security after idle dates through each trading path.",
         "Non-flow adjustments and flows injected directly into descendants are known to the driver; tolerance 1e-9 relative + 1e-6.",
         "5/C02",
     ),
@@ -30,7 +30,7 @@ CHECKS = {
     "C05": (
         "Hypothesis-generated direct allocate calls vs an independent cost function and bisection oracle (thorough tier: plus a coverage-guided atheris campaign on the same oracle)",
         "Generated-input search (40k quick / 1.5M thorough direct calls over price x multiplier x position x amount x spread x commission spec x mode) against an "
-        "independent cost model: budget respected, maximal whole quantity, fractional equality, close-out, zero amount, refusal at NaN/zero price; the same cases with the security under a sub-strategy whose commission schedule differs from the root's. No counterexample = "
+        "independent cost model: budget respected, maximal whole quantity, fractional equality, close-out, zero amount, refusal at NaN/zero price; the same cases with the security under a sub-strategy whose commission schedule differs from the root's; refusals also on securities quoted, or held and closed, the date before. No counterexample = "
         "evidence over the sampled domain, not a proof.",
         "Trusts the harness cost function (q*p*m + |q|*s/2*m + fee, zero for no trade) and the stated commission domain (one-unit commission + half-spread < 0.9 unit price).",
         "5/C05",
@@ -53,7 +53,7 @@ CHECKS = {
     "C10": (
         "grammar-generated whole backtests (Hypothesis) with finiteness oracle and exception bucketing; generated ill-formed classes must raise",
         "Generated-input search: every grammar-generated well-formed backtest must run, every report accessor must complete, every recorded number must be finite, on the "
-        "installed pandas/numpy (interpreted build in quick, interpreted + compiled in thorough); report accessors asked for in a generated order straight after grammar, fixed-income and maturing-securities runs complete with finite weights; each ill-formed class is generated in many variants and must raise.",
+        "installed pandas/numpy (interpreted build in quick, interpreted + compiled in thorough); (15 classes, among them a trade on a date the bid/offer spread is NaN and hedge P&L after the notional was wound down to zero); report accessors asked for in a generated order straight after grammar, fixed-income and maturing-securities runs complete with finite weights; each ill-formed class is generated in many variants and must raise.",
         "Well-formedness is enforced by the generator (prices finite and positive wherever selected/held); third-party optimiser non-convergence is discarded and counted.",
         "5/C10",
     ),
@@ -71,7 +71,7 @@ CHECKS.update(
         "C13": (
             "exhaustive truth tables of stacks up to length 6 (and one level of nesting) against a reference interpreter + Hypothesis recursive stack trees + spy algos inside generated backtests",
             "All 55,987 flat stacks of length 0-6 over {T,F}x{plain, run_always True/False}, one-level nested stacks/Or/Not and the Require table are enumerated completely; deeper nestings, "
-            "Strategy.run ordering/temp/perm and RunIfOutOfBounds are searched with generated cases.",
+            "Strategy.run ordering/temp/perm (inside backtests and for strategies run as constructed, interleaved) and RunIfOutOfBounds are searched with generated cases.",
             "Algos return real bools; the cash metric of RunIfOutOfBounds is only constrained at its two extremes.",
             "5/C13",
         ),
@@ -103,7 +103,7 @@ CHECKS.update(
             "metamorphic pairs of whole runs: a generated backtest vs the same backtest with every value dated after a generated cut perturbed; bit-identical prefix oracle",
             "Generated backtests over the whole stock-algo grammar (look-back/lag algos, nested trees, bid/offer, signals, dated weights, stat frames) are run twice, the second time with all "
             "supplied values after a generated cut date perturbed (prices, listings, gaps, spreads, signals, weights, statistics, coupons, holding costs, notional schedules, unit-risk tables; "
-            "families for fixed-income books, HedgeRisks trees, TargetVol and PTE_Rebalance; transaction / RFQ blotters with their own stamps in any row order under ReplayTransactions and SimulateRFQTransactions); all node histories and transactions up to the cut must be bit-identical.",
+            "families for fixed-income books, HedgeRisks trees, TargetVol and PTE_Rebalance; transaction / RFQ blotters with their own stamps in any row order under ReplayTransactions and SimulateRFQTransactions; a missed print while flat with the ticker delisted after the cut); all node histories and transactions up to the cut must be bit-identical.",
             "Only stock algos are quantified; index and columns are not perturbed; both runs use the same RNG seeds.",
             "5/C04",
         ),
@@ -140,7 +140,7 @@ CHECKS.update(
             "Hypothesis-generated construction/run schedules over one template with deep fingerprint and differential oracles; same spec across fresh processes with different PYTHONHASHSEED",
             "Generated schedules (1-3 backtests from one template, any construction/run order, repeated run()) with deep fingerprints of template and input frames and a differential "
             "comparison against a lone backtest (grammar, fixed-income, unit-risk, close/roll-table and TargetVol/PTE families); benchmark_random must leave its template alone; generated specs "
-            "re-executed in fresh interpreter processes under several hash seeds must give bit-identical histories.",
+            "re-executed in fresh interpreter processes under several hash seeds must give bit-identical histories (own family: targets shrinking under LimitDeltas with commissions).",
             "random / numpy.random are seeded from the spec immediately before each run; the harness owns process creation.",
             "5/C11",
         ),
